@@ -101,8 +101,23 @@ def hook(ex, func, argv, frame):
                 if t.startswith('bool'):
                     return True, False
                 return False, None
-            if meth == 'map' and not isopt:
+            if meth == 'map':
+                if isopt:
+                    return True, (Some(call(a[1], [inner])) if good else NoneV())
                 return True, (Ok(call(a[1], [inner])) if good else vv)
+            if meth == 'map_err' and not isopt:
+                if good:
+                    return True, vv
+                fn = a[1]
+                if isinstance(fn, FnItem) and re.match(r'^.*::\w+$', strip_generics(fn.name)) and not strip_generics(fn.name).startswith('<'):
+                    return False, None        # enum-variant constructor used as a function: models.dispatch builds the variant
+                return True, Err(call(fn, [inner]))
+            if meth == 'map_or' and isopt:
+                return True, (call(a[2], [inner]) if good else a[1])
+            if meth == 'filter' and isopt:
+                if good and ex.branch(call(a[1], [Ref(Cell(inner))])):
+                    return True, vv
+                return True, NoneV()
             if meth == 'and_then':
                 return True, (call(a[1], [inner]) if good else (NoneV() if isopt else vv))
             if meth == 'or_else':
